@@ -3,7 +3,7 @@
 From Coq Require Import List NArith Bool.
 Import ListNotations.
 From Verif Require Import Base.Bytes Store.GraphCount Store.GraphWalk Store.Model Store.ProofsRows Store.ProofsHash Store.ProofsTop Store.Check.
-From Verif Require Import Manager.Model Manager.Proofs Properties.StoreExample.
+From Verif Require Import Manager.Model Manager.Proofs Manager.Fold Properties.StoreExample.
 Local Open Scope N_scope.
 
 (* the echo filter, exactly: a batch of one author o written to node x and republished by the store on
@@ -72,6 +72,39 @@ Theorem C08_only_subtree : forall st o c,
   deliver_all c (msgs_of o (pubs_of (handle st o))) = ([], None).
 Proof. exact C08_only_subtree_proof. Qed.
 Print Assumptions C08_only_subtree.
+
+(* the fold clause, for the scalar point fields of the decoder model (description: text, value: number): after any
+   history of requests, decoding what the store holds for the client's node gives the same field as folding,
+   in order, every accepted batch written to that node (the foreign ones the client is told of — C08_order —
+   and the ones it wrote itself) into the configuration decoded when it started.  Hypotheses: the field's points
+   carry key "" or "0" (zero_keys), and their timestamps do not decrease (nondec: start value, then the writes). *)
+Theorem C08_fold_agrees : forall st ops id ty,
+  nodes_ok st ->
+  let rows := node_rows (s_nodes st) id in
+  let told_and_own := accepted_node st ops id in
+  zero_keys ty rows -> zero_keys ty told_and_own -> nondec (lookup rows ty str_0) (typed ty told_and_own) ->
+  field_text (sort_points (node_rows (s_nodes (Store.ProofsTop.run st ops)) id)) ty = field_text (sort_points rows ++ told_and_own) ty /\
+  field_val (sort_points (node_rows (s_nodes (Store.ProofsTop.run st ops)) id)) ty = field_val (sort_points rows ++ told_and_own) ty.
+Proof. intros. split; [apply fold_agrees_text|apply fold_agrees_val]; assumption. Qed.
+Print Assumptions C08_fold_agrees.
+
+(* non-vacuity of the fold clause: two writes to node c of the example store (the second newer, the first with an
+   empty key, the second with key "0"), plus an unrelated type in between *)
+Definition ex_fold_u : bytes := [117].
+Definition ex_fold_ops : list op :=
+  [NodePts id_c [mkPoint t_value [] 100 7 [] [] 0 ex_fold_u]; NodePts id_c [mkPoint [100] [] 101 0 [120] [] 0 ex_fold_u];
+   NodePts id_c [mkPoint t_value [48] 102 9 [] [] 0 []]].
+Example C08_fold_example :
+  zero_keys t_value (node_rows (s_nodes ex_st) id_c) /\ zero_keys t_value (accepted_node ex_st ex_fold_ops id_c) /\
+  nondec (lookup (node_rows (s_nodes ex_st) id_c) t_value str_0) (typed t_value (accepted_node ex_st ex_fold_ops id_c)) /\
+  length (typed t_value (accepted_node ex_st ex_fold_ops id_c)) = 2%nat /\
+  field_val (sort_points (node_rows (s_nodes (Store.ProofsTop.run ex_st ex_fold_ops)) id_c)) t_value = 9.
+Proof.
+  split; [|split; [|split; [|split]]]; try (vm_compute; reflexivity).
+  - intros p Hp Ht. vm_compute in Hp. repeat (destruct Hp as [<-|Hp]; [try reflexivity; try (exfalso; vm_compute in Ht; discriminate)|]). destruct Hp.
+  - intros p Hp Ht. vm_compute in Hp. repeat (destruct Hp as [<-|Hp]; [try reflexivity; try (exfalso; vm_compute in Ht; discriminate)|]). destruct Hp.
+  - vm_compute. repeat split; discriminate.
+Qed.
 
 (* non-vacuity, in the example store of C06 (c under a (deleted) and b (live), both under r): a batch authored by
    "u" written to c reaches the client of b once and the client of r once, not the client of a; a batch authored
